@@ -13,6 +13,9 @@ from harness import tlc
 from harness.common import MachineryFailure
 
 CTX = {"c1": "a", "c2": "b"}                  # model context -> script file (global context file.<name>)
+# global contexts whose code calls task.unique: the two script files (tasks are started there) and a module
+# imported by both (its functions run in the module's own global context, whoever calls them)
+GCTX = {"c1": "file.a", "c2": "file.b", "c3": "modules.shared"}
 NAMES = ["n1", "n2", "n3"]
 FNS = ["g1", "g2", "g3"]
 # done-callback functions by kind of callable (model: each one is ONE element of Fn, whatever its kind):
@@ -48,8 +51,25 @@ WHAT = {
 
 # ------------------------------------------------------------------------------------------------
 # generated pyscript source: one generic interpreter `worker(tag, prog)` per file
+SHARED = r'''
+def uq(tag, n, km, i):
+    here = vf.ctxname(pyscript.get_global_ctx())
+    vf.rec("op", tag, "unique", n, km, here, "c3", i)
+    task.unique(n, kill_me=km)
+    vf.rec("n2i", tag, here, vf.view(task.name2id()))
+'''
+
 WORKER = r'''
 import operator
+import shared
+
+def uq(tag, n, km, i):
+    here = vf.ctxname(pyscript.get_global_ctx())
+    vf.rec("op", tag, "unique", n, km, here, "CTX", i)
+    task.unique(n, kill_me=km)
+    vf.rec("n2i", tag, here, vf.view(task.name2id()))
+
+vf.fnreg("CTX", uq)
 
 def _cb(tag, f, arg, beh, d):
     vf.rec("cb", tag, f, arg)
@@ -152,8 +172,20 @@ def worker(tag, prog):
         i += 1
         k = op[0]
         if k == "unique":
-            vf.rec("op", tag, "unique", op[1], op[2], i)
-            task.unique(op[1], kill_me=op[2])
+            # ["unique", name, kill_me, where]: where = the global context whose code makes the call -
+            # "own" (right here), "c3" (a function imported from modules/), "c1" / "c2" (a function of that
+            # script file, handed over as an object: it runs in the file's context whoever calls it)
+            where = op[3] if len(op) > 3 else "own"
+            if where == "own":
+                here = vf.ctxname(pyscript.get_global_ctx())
+                vf.rec("op", tag, "unique", op[1], op[2], here, "CTX", i)
+                task.unique(op[1], kill_me=op[2])
+                vf.rec("n2i", tag, here, vf.view(task.name2id()))
+            elif where == "c3":
+                shared.uq(tag, op[1], op[2], i)
+            else:
+                f = vf.fn(where)
+                f(tag, op[1], op[2], i)
         elif k == "sleep":
             vf.rec("op", tag, "sleep", op[1], i)
             task.sleep(op[1])
@@ -263,7 +295,9 @@ def sources(scn):
     for ev in scn["events"]:
         if ev["do"] == "spawn" and ev["how"] == "deco":
             decos[ev["ctx"]].add((ev["dn"], ev["dkm"]))
-    return {CTX[c] + ".py": source(c, decos[c]) for c in ("c1", "c2")}
+    out = {CTX[c] + ".py": source(c, decos[c]) for c in ("c1", "c2")}
+    out["modules/shared.py"] = SHARED
+    return out
 
 
 # ------------------------------------------------------------------------------------------------
@@ -317,7 +351,32 @@ def run_scenario(scn):
             sinks[f] = Sink(f, lambda *a: box["w"].rec.append((box["w"].vt(), a, {})))
         return sinks[f]
 
-    funcs = {"vf.reg": vf_reg, "vf.task": vf_task, "vf.prog": vf_prog, "vf.sink": vf_sink}
+    fnreg = {}
+
+    def vf_fnreg(c, f):
+        fnreg[c] = f
+
+    def vf_fn(c):
+        return fnreg[c]
+
+    def vf_view(d):
+        # task.name2id() of one global context -> {name: tag of the owner}
+        inv = {id(tk): tag for tag, tk in reg.items()}
+        v = {n: "-" for n in NAMES}
+        for n, tk in d.items():
+            if n in v:
+                v[n] = inv.get(id(tk), "?")
+            else:
+                v = {m: "?" for m in NAMES}
+                break
+        return v
+
+    def vf_ctxname(g):
+        # pyscript.get_global_ctx() -> model context ("?" = none of the generated ones: TLC rejects the line)
+        return {v: k for k, v in GCTX.items()}.get(g, "?")
+
+    funcs = {"vf.ctxname": vf_ctxname, "vf.reg": vf_reg, "vf.task": vf_task, "vf.prog": vf_prog, "vf.sink": vf_sink,
+             "vf.fnreg": vf_fnreg, "vf.fn": vf_fn, "vf.view": vf_view}
 
     async def pre(hass):
         Function.register(funcs)
@@ -342,18 +401,20 @@ def run_scenario(scn):
 
         def snap():
             inv = {id(tk): tag for tag, tk in reg.items()}
-            owner = {c: {n: "-" for n in NAMES} for c in CTX}
-            for c, f in CTX.items():
-                pre_ = "file.%s." % f
+            owner = {c: {n: "-" for n in NAMES} for c in GCTX}
+            known = 0
+            for c, g in GCTX.items():
+                pre_ = g + "."
                 for name, tk in Function.unique_name2task.items():
                     if name.startswith(pre_) and name[len(pre_):] in NAMES:
                         owner[c][name[len(pre_):]] = inv.get(id(tk), "?")
+                        known += 1
             live = sorted(t for t, tk in reg.items() if not tk.done())
             ours = sorted(inv[id(tk)] for tk in Function.our_tasks if id(tk) in inv)
             cbk = sorted(inv.get(id(tk), "?") for tk in Function.task2cb)
             ctxk = sorted(inv.get(id(tk), "?") for tk in Function.task2context)
             extra = len(Function.our_tasks) - len(ours) - base_ours
-            extra += sum(1 for n in Function.unique_name2task if not n.startswith("file."))
+            extra += len(Function.unique_name2task) - known      # names outside the generated (context, name) space
             log("snap", owner, live, ours, cbk, ctxk, extra)
 
         points = sorted(set([e["at"] for e in scn["events"]] + list(scn["snaps"])))
@@ -440,7 +501,9 @@ def lines_of(recs):
             a = a[:-1]
             o = a[2]
             if o == "unique":
-                ln.update(n=a[3], km=bool(a[4]))
+                # c: the CURRENT global context as pyscript.get_global_ctx() reports it at the call ("task.unique is
+                # specific to the current global context"); lc: the context in which the calling function was written
+                ln.update(n=a[3], km=bool(a[4]), c=a[5], lc=a[6])
             elif o == "sleep":
                 ln.update(d=ms(a[3]))
             elif o == "create":
@@ -456,6 +519,8 @@ def lines_of(recs):
             elif o == "call":
                 ln.update(ch=a[3], bl=bool(a[4]), c=a[5])
             out.append(ln)
+        elif k == "n2i":
+            out.append({"k": "n2i", "t": a[1], "c": a[2], "view": a[3], "ts": ts})
         elif k == "xres":
             out.append({"k": "xres", "t": a[1], "r": a[2], "ts": ts})
         elif k == "skip":
@@ -622,6 +687,50 @@ def corruptions_round3(cases, want):
     return bad, expect, {"rmcb_removes_more": na, "caller_forgotten_by_callee": nb}
 
 
+def corruptions_round4(cases, want):
+    """Corrupted copies of recordings of the kind added in round 4 (a name claimed from code of a global context other
+    than the one the task was started in):
+    (a) the task.name2id() view read in that code context right after the claim does not show the caller;
+    (b) a snapshot shows the name under the task's STARTING context instead of the context of the calling code.
+    Both must be rejected at exactly the corrupted line.  Returns (cases, {id: (base id, line)}, counts)."""
+    bad, expect = [], {}
+    na = nb = 0
+    for c in cases:
+        tr = c["trace"]
+        start = {ln["t"]: ln["c"] for ln in tr if ln["k"] in ("spawn", "spawnf")}
+        if na < want:
+            for i, ln in enumerate(tr):
+                if ln["k"] == "n2i" and ln["c"] != start.get(ln["t"]) and ln["t"] in ln["view"].values():
+                    c2 = {"id": "corrupt-n2i/" + c["id"], "flags": [], "trace": copy.deepcopy(tr)}
+                    v = c2["trace"][i]["view"]
+                    for n in v:
+                        if v[n] == ln["t"]:
+                            v[n] = "-"
+                    bad.append(c2)
+                    expect[c2["id"]] = (c["id"], i + 1)
+                    na += 1
+                    break
+        if nb < want:
+            done = False
+            for i, ln in enumerate(tr):
+                if ln["k"] != "snap" or done:
+                    continue
+                for cc in sorted(ln["owner"]):
+                    for nn in sorted(ln["owner"][cc]):
+                        t = ln["owner"][cc][nn]
+                        sc = start.get(t)
+                        if t != "-" and sc and sc != cc and ln["owner"][sc][nn] == "-" and not done:
+                            c2 = {"id": "corrupt-owner-ctx/" + c["id"], "flags": [], "trace": copy.deepcopy(tr)}
+                            ow = c2["trace"][i]["owner"]
+                            ow[cc][nn] = "-"
+                            ow[sc][nn] = t
+                            bad.append(c2)
+                            expect[c2["id"]] = (c["id"], i + 1)
+                            nb += 1
+                            done = True
+    return bad, expect, {"name2id_view_without_caller": na, "owner_under_starting_context": nb}
+
+
 def overlapping_callbacks(case):
     """Input class of the finding cb-shared-interpreter: done-callbacks of two different tasks are
     suspended at overlapping times (taken from the recording's cbop sleep lines)."""
@@ -636,7 +745,18 @@ def validate(ctx, prop, cases, label, masked_ids=(), selftest_want=0):
     bad, expect = corruptions([c for c in cases if c["id"] in masked_ids] + [c for c in cases if c["id"] not in masked_ids],
                               3 * selftest_want) if selftest_want else ([], {})
     bad3, expect3, n3 = corruptions_round3(cases, selftest_want) if (selftest_want and prop == "C14") else ([], {}, {})
-    rej, res = accept(ctx, [slim(c) for c in cases] + bad + bad3, label, coverage=True)
+    bad4, expect4, n4 = corruptions_round4(cases, selftest_want) if (selftest_want and prop == "C13") else ([], {}, {})
+    rej, res = accept(ctx, [slim(c) for c in cases] + bad + bad3 + bad4, label, coverage=True)
+    if selftest_want and prop == "C13":
+        chk = {i: (b, ln) for i, (b, ln) in expect4.items() if b not in rej}
+        wrong = [(i, rej.get(i), ln) for i, (b, ln) in chk.items() if rej.get(i) != ln]
+        if wrong:
+            raise MachineryFailure("selftest: corrupted recordings (round 4 kinds) not rejected at the corrupted line: %s" % wrong[:3])
+        for key, pre_ in (("name2id_view_without_caller", "corrupt-n2i/"), ("owner_under_starting_context", "corrupt-owner-ctx/")):
+            got = len([i for i in chk if i.startswith(pre_)])
+            ctx.cov.setdefault("selftest_round4", {})[key] = got
+            if not got and not any(c["id"] in rej and c["id"] in masked_ids for c in cases):
+                raise MachineryFailure("selftest: no accepted recording to corrupt for %s" % key)
     if bad3 or (selftest_want and prop == "C14"):
         chk = {i: (b, ln, ex) for i, (b, ln, ex) in expect3.items() if b not in rej}
         wrong = [(i, rej.get(i), ln) for i, (b, ln, ex) in chk.items()
@@ -688,7 +808,7 @@ def validate(ctx, prop, cases, label, masked_ids=(), selftest_want=0):
 # ------------------------------------------------------------------------------------------------
 # (M): configurations of spec/Tasks.tla
 def mc_cfg(ctx, name, consts, invariants, symmetry=True, witness=False):
-    base = {"Task": "{t1, t2, t3}", "Foreign": "{}", "Name": "{n1, n2}", "Ctx": "{c1, c2}", "Fn": "{}", "MethFn": "{}",
+    base = {"Task": "{t1, t2, t3}", "Foreign": "{}", "Name": "{n1, n2}", "Ctx": "{c1, c2}", "Roam": "FALSE", "Fn": "{}", "MethFn": "{}",
             "MaxArg": "1", "MaxOps": "2", "MaxEnv": "0", "Ops": '{"unique", "sleep", "raise"}',
             "Kinds": '{"svc"}', "Decos": "{}", "Flags": "{}", "None": "None"}
     base.update(consts)
@@ -712,8 +832,10 @@ def tlc_workers(n):
     return min(n, cap) if cap else n
 
 
-def unseen(res):
-    return sorted(int(m) for m in re.findall(r'"UNSEEN", (\d+)', res.out))
+def unseen(res, upto=13):
+    """Witness situations (Tasks.WitnessConds) a run never visited; 14.. (tasks roaming through global contexts)
+    are meaningful for Roam = TRUE configurations only: asked for explicitly."""
+    return sorted(int(m) for m in re.findall(r'"UNSEEN", (\d+)', res.out) if int(m) <= upto)
 
 
 C13_INV = ["TypeOK", "MapsConsistent", "OwnerIsLastLiveClaimant", "OwnerIsLiveOurs", "OneLiveClaimantAtQuiescence",
